@@ -44,6 +44,30 @@ fn main() {
                 }
                 return;
             }
+            "--big" => {
+                lolv::engine::install_quiet_panic_hook();
+                let n: usize = args[i + 2].parse().expect("n");
+                match lolv::props::c15::run_big(&args[i + 1], n) {
+                    Ok(m) => {
+                        println!("OK {m}");
+                        return;
+                    }
+                    Err(e) => {
+                        println!("FAILED {e}");
+                        std::process::exit(1);
+                    }
+                }
+            }
+            "--perf" => {
+                let n: usize = args[i + 2].parse().expect("n");
+                match lolv::props::c15perf::run_perf(&args[i + 1], n) {
+                    Ok(()) => return,
+                    Err(e) => {
+                        println!("FAILED {e}");
+                        std::process::exit(1);
+                    }
+                }
+            }
             "--threads" => {
                 i += 1;
                 threads = args[i].parse().expect("threads");
